@@ -142,13 +142,13 @@ class ReadvSpec(Spec):
         if k in ("down", "reset", "flush"):
             mid = bool(fl)
             late = bool(r.extra) and r.extra[0] <= 2      # a header's last word arrived 1..3 cycles before the crash
+            self.cover["crash:midpacket" if mid else "crash:late-header" if late else "crash:" + k] += 1
             try:
                 self.crash(cur, r, a, late and r.extra[1])
             except Violation as v:
                 if mid: raise Violation("midpacket:" + v.rule, v.detail)
                 if late: raise Violation("late-header:" + v.rule, v.detail)
                 raise
-            self.cover["crash:midpacket" if mid else "crash:late-header" if late else "crash:" + k] += 1
             return ((), (), (), 1)
         if k in ("w", "hp"):
             if k == "hp":
@@ -283,7 +283,8 @@ class ReadvSpec(Spec):
 
     def goals(self):
         g = ["hp:accept", "hp:bad", "LGOOD", "LCRD", "LBAD", "LUP", "LRTY", "crash:command-in-flight-completed"]
-        g.append("crash:midpacket" if self.cfg["mid"] else "crash:down")
+        g += ["crash:midpacket"] if self.cfg["mid"] else []
+        g += ["crash:down", "crash:reset", "crash:late-header", "readvertised", "fresh-probe-passed"]
         return g
 
 
